@@ -28,6 +28,7 @@ pub(crate) struct TCfg {
     pub tabs_k: usize,        // SYM: Tabs::new(cols); k: any G6 set of k stops
     pub fill: Fill,
     pub asrow: usize,         // row of the *other* screen's saved cursor, SYM = any inside that screen
+    pub limit_any: bool,      // the configured scrollback limit is Some(any usize) instead of the constant `limit`
     pub big: bool,            // scalar slice: `cols` / `rows` fields symbolic up to 2^31 over 1x1 buffers (cursor arithmetic only)
 }
 
@@ -47,6 +48,7 @@ pub(crate) const fn cfg(cols: usize, rows: usize) -> TCfg {
         tabs_k: SYM,
         fill: Fill::Sym,
         asrow: SYM,
+        limit_any: false,
         big: false,
     }
 }
@@ -113,7 +115,8 @@ fn mk_terminal_small(c: &TCfg) -> Terminal {
         1 => true,
         _ => any_bool(),
     };
-    let limit_of = |is_alt_buffer: bool| if is_alt_buffer { Some(0) } else { c.limit };
+    let cfg_limit = if c.limit_any { Some(any_usize()) } else { c.limit };
+    let limit_of = |is_alt_buffer: bool| if is_alt_buffer { Some(0) } else { cfg_limit };
     // active buffer
     let mut buffer = mk_buffer(cols, rows, c.sb, c.limit, false, c.fill);
     b_set_limit(&mut buffer, limit_of(alt));
@@ -155,7 +158,7 @@ fn mk_terminal_small(c: &TCfg) -> Terminal {
         buffer,
         other_buffer: other,
         active_buffer_type: if alt { BufferType::Alternate } else { BufferType::Primary },
-        scrollback_limit: c.limit,
+        scrollback_limit: cfg_limit,
         cursor: Cursor {
             col,
             row,
@@ -1693,8 +1696,9 @@ pub(crate) fn t_ris(c: TCfg) {
     let mut t = mk_terminal(&c);
     let (cols, rows) = (c.cols, c.rows);
     let pre = snap(&t);
+    let configured = t.scrollback_limit;
     t.execute(Function::Ris);
-    let f = Terminal::new((cols, rows), c.limit);
+    let f = Terminal::new((cols, rows), configured);
     let s = snap(&t);
     let g = snap(&f);
     assert!(s.cols == g.cols && s.rows == g.rows, "[C19] RIS keeps the current size");
@@ -1975,6 +1979,19 @@ pub(crate) fn t_base(cols: usize, rows: usize, limit: usize) {
     assert!(cell_at(&t, w.i, w.c) == Cell::default() && !mark_at(&t, w.i), "[C19] a fresh terminal is blank");
     assert!(dl_get(&t.dirty_lines, any_in(0, rows - 1)), "[C15] a fresh terminal reports every row as changed");
     assert!(b_limit(&t.buffer) == Some((limit, limit + limit / 10)) && b_limit(&t.other_buffer) == Some((0, 0)), "[C13] the primary gets the configured limit (+10% slack), the alternate screen none");
+    kv_end!();
+    forget(t);
+}
+
+/// T-base for ANY scrollback limit
+pub(crate) fn t_base_any(cols: usize, rows: usize) {
+    let limit = any_usize();
+    let t = Terminal::new((cols, rows), Some(limit));
+    assert_inv(&t);
+    let s = snap(&t);
+    assert!(s.len == rows && s.other_len == rows && !s.alt && s.col == 0 && s.row == 0, "[C02][C19] a fresh terminal shows a blank primary screen with the cursor home");
+    assert!(b_limit(&t.buffer).map(|l| l.0) == Some(limit) && b_limit(&t.other_buffer) == Some((0, 0)), "[C13] the primary gets the configured limit, the alternate screen none");
+    kv_cover!(limit > (1usize << 62), "huge limit");
     kv_end!();
     forget(t);
 }
